@@ -163,7 +163,10 @@ def _parse_csv_with_units(
     _get_column_names_and_units(...) and writer helpers.
     """
     # Read as-is (no header row); keep object dtype so mixed cells don't get mangled.
-    df_full = pd.read_csv(csv_file, header=None, encoding=encoding, dtype=object)
+    # Only empty cells are missing: labels such as "NA", "null" or "nan" are ordinary text
+    df_full = pd.read_csv(
+        csv_file, header=None, encoding=encoding, dtype=object, keep_default_na=False, na_values=[""]
+    )
 
     # Build column names & units using your existing logic keyed by 'kind'
     col_names, col_units = _get_column_names_and_units(
@@ -197,9 +200,12 @@ def _parse_csv_with_units(
                 return x
         return x
 
-    df_data = df_data.map(_to_number_maybe)
-
     units_map = dict(zip(col_names, col_units))
+
+    # Label columns (no unit) keep their text: "007" or "1e3" are names, not numbers
+    for col in df_data.columns:
+        if kind == "Summary" or units_map.get(col):
+            df_data[col] = df_data[col].map(_to_number_maybe)
 
     if kind == "Summary":
         return _write_targets_to_dict_and_list(df_data, units_map, project_name)
